@@ -1,12 +1,12 @@
 (* Model/BimgModel.v -- executable model of spsdk/image/bootable_image/bimg.py (BootableImage) over raw-binary segments
    (C14).  Definitions only.  The segment tables come from Gen/GenBimg.v (regenerated from the device database and
    segments.py on every run).  Faithful to the code, defects included:
-     - init_offset setter: min() over the offsets that are >= request OR NEGATIVE (dynamic) -> -1 for layouts with a
-       floating segment (C14-F1);
+     - init_offset setter: the closest segment start at or above the request (floating segments ignored; repaired C14-F1);
      - export() never validates: an oversized segment is silently overwritten by its successor, or makes the
        memoryview assignment fail (non-SPSDK exception);
      - _parse_all tries init offsets of INIT_SEGMENT segments only (C14-F3);
-     - FCB segment of a family without FCB description always fails to parse (C14-F4).
+     - FCB segment of a family without FCB description is taken by the generic parser (repaired C14-F4);
+     - a fixed-size class refuses a binary longer than its SIZE on load (repaired C14-F2).
    Not modelled: segments built from YAML configurations (MBI/HAB/AHAB/FCB/XMCD objects; their own export/parse round
    trip is C01/C06/C07/C12) -- a segment is its raw bytes and len(segment) = number of bytes; per-class recognisers of
    structured segments are parameters (rec/find) of the parse model. *)
@@ -39,7 +39,7 @@ Definition is_dyn (s : seg) : bool := fo s <? 0.
 Definition set_init (t : table) (r : Z) : res Z :=
   if r <? 0 then Err 1%N
   else if r =? 0 then Ok 0
-  else match filter (fun o => (r <=? o) || (o <? 0)) (map fo (segs t)) with
+  else match filter (fun o => r <=? o) (map fo (segs t)) with
        | [] => Err 1%N
        | o :: rest => Ok (fold_left Z.min rest o)
        end.
@@ -258,8 +258,8 @@ Definition rec_std (c : rec_ctx) (s : seg) (bin : list N) : rec_result :=
   else if (t =? 2) || (t =? 3) then                                                     (* SegmentFcb(Xspi) *)
     if zlen bin <? fsize s then RFail 1%N
     else if fcb_tag bin then
-           (if fcb_supported c then let raw := zfirst (fsize s) bin in RFound raw (zlen raw)
-            else RFail 1%N)                  (* generic parse, then falls through to "Parsing of FCB segment failed" *)
+           (if fcb_supported c then let raw := zfirst (fsize s) bin in RFound raw (zlen raw)     (* FCB.parse *)
+            else rec_raw s bin)                                            (* no FCB description: generic parse *)
          else if is_padding s bin then RAbsent else RFail 1%N
   else if t =? 9 then                                                                   (* SegmentXmcd *)
     if zlen bin <? fsize s then RFail 1%N
@@ -333,9 +333,21 @@ Fixpoint bytes_of_values (l : list value) : list (list N) :=
   | [] => []
   end.
 
-(* SegmentHab.load_config reads config["hab_container"] unconditionally: a configuration without it dies with KeyError *)
-Definition load_check (t : table) (ps : list (list N)) : res unit :=
-  if existsb (fun x => (tag (fst x) =? 11) && is_nil (snd x)) (combine (segs t) ps) then Err 2%N else Ok tt.
+(* load_from_config, segment by segment in table order:
+   - Segment.load_config (key blob, key store, BEE headers, and the binary fall-back of FCB and XMCD) refuses a binary
+     longer than the class SIZE (SPSDKValueError);
+   - SegmentHab.load_config reads config["hab_container"] unconditionally: a configuration without it dies with KeyError *)
+Definition sized_tag (s : seg) : bool :=
+  (tag s =? 1) || (tag s =? 2) || (tag s =? 3) || (tag s =? 6) || (tag s =? 7) || (tag s =? 8) || (tag s =? 9).
+Fixpoint load_check_l (l : list (seg * list N)) : res unit :=
+  match l with
+  | [] => Ok tt
+  | (s, p) :: tl =>
+      if sized_tag s && (0 <? fsize s) && (fsize s <? zlen p) then Err 1%N
+      else if (tag s =? 11) && is_nil p then Err 2%N
+      else load_check_l tl
+  end.
+Definition load_check (t : table) (ps : list (list N)) : res unit := load_check_l (combine (segs t) ps).
 
 Definition describe (t : table) (io : Z) (ps : list (list N)) : value :=
   let pl := place t io ps in
